@@ -236,6 +236,8 @@ FIXED = [
     [("shuffle", {"perm": [2, 0, 1]}), ("dereference", {}), ("strided", {"N": 3, "in": "int"}), ("array", {"M": 2, "out": "double"})],
     [("affine", {}), ("constant", {"N": 3, "in": "float", "M": 1, "out": "float"})],
     [("covariant_cast", {"target": "float"}), ("nearest_neighbour", {"in": "float"}), ("strided", {"N": 1, "in": "size_t"}), ("array", {"M": 3, "out": "double"})],
+    [("backup", {}), ("clamp", {}), ("morton", {"N": 2, "in": "size_t", "bmi2": True}), ("array", {"M": 1, "out": "double"})],
+    [("dereference", {}), ("hilbert", {"N": 2, "in": "unsigned"}), ("array", {"M": 4, "out": "double"})],
 ]
 
 
@@ -383,3 +385,44 @@ def from_kinds(kinds, base, rng):
     if view_size(layers)[0] > 256:
         return None
     return layers
+
+
+def sibling(layers, swap_width, swap_interp):
+    """The same stack with the storage scalar width and/or the interpolation method exchanged (C07);
+    None if the stack has no array storage, contains a layer whose on-disk payload follows the storage scalar
+    (backup), or the variant is not well-kinded."""
+    import copy
+    if layers[-1]["kind"] != "array" or any(l["kind"] == "backup" for l in layers):
+        return None
+    v = copy.deepcopy(layers)
+    if swap_interp:
+        if not any(l["kind"] in INTERPS for l in v):
+            return None
+        for l in v:
+            if l["kind"] in INTERPS:
+                l["kind"] = "linear" if l["kind"] == "nearest_neighbour" else "nearest_neighbour"
+    if swap_width:
+        other = {"float": "double", "double": "float"}
+        old = v[-1]["out"]
+        # the stored scalar propagates upwards until a cast replaces it
+        for l in reversed(v):
+            if l["kind"] == "covariant_cast":
+                break
+            l["out"] = other[old]
+    # reference-ness above a changed interpolator
+    ref = True
+    for l in reversed(v):
+        if l["kind"] in ("array",) + ORDERS:
+            ref = True
+        elif l["kind"] in ("clamp", "shuffle", "nearest_neighbour", "affine"):
+            pass
+        else:
+            ref = False
+        l["ref"] = ref
+    try:
+        check_kinds(v)
+    except AssertionError:
+        return None
+    if view_size(v)[0] > 256 or cpp_type(v) == cpp_type(layers):
+        return None
+    return v
